@@ -43,7 +43,7 @@ func init() {
 						st = mockstore.NewStore()
 					default:
 						ClearDB()
-						bs := badgerstore.NewStore(DB).SetPrefix("p")
+						bs := badgerstore.NewStore(DB).SetPrefix("ba")
 						if typ == "collection" {
 							bs.SetType([]interface{}{})
 						}
